@@ -281,10 +281,44 @@ impl H {
                 if takes { return Err(format!("W14 operation {} awaits a write completion but completes only with a response packet", id)); }
             }
         }
+        self.check_located()?;
         if s.state == ProtocolStateType::PendingConnack {
             for id in s.high_priority_operation_queue.iter() {
                 if let Some(op) = s.operations.get(id) { if !matches!(&*op.packet, MqttPacket::Connect(_)) { return Err(format!("W7 non-CONNECT op {} in high-priority queue before CONNACK", id)); } }
             }
+        }
+        Ok(())
+    }
+
+    // ------------------------------------------------------------------ executable H1-H6 ("where things are", DESIGN.md 2) - the entry-point
+    // invariant the E-V proofs of session handling rest on; evaluated here after every step as an independent cross-check
+    pub fn check_located(&self) -> Result<(), String> {
+        let s = &self.ps;
+        let is_connect = |id: &u64| s.operations.get(id).map(|op| matches!(&*op.packet, MqttPacket::Connect(_))).unwrap_or(false);
+        for id in s.resubmit_operation_queue.iter() {
+            if *id >= s.next_operation_id { return Err(format!("H1 unknown id {} in the retransmission queue", id)); }
+            if let Some(op) = s.operations.get(id) { if !matches!(&*op.packet, MqttPacket::Publish(_)) { return Err(format!("H1 operation {} in the retransmission queue is not a publish", id)); } }
+        }
+        for (k, op) in s.operations.iter() {
+            if let Some(p) = op_packet_id(op) {
+                let located = s.current_operation == Some(*k) || s.pending_publish_operations.contains_key(&p) || s.pending_non_publish_operations.contains_key(&p)
+                    || s.resubmit_operation_queue.contains(k) || s.user_operation_queue.contains(k);
+                if !located { return Err(format!("H2 operation {} holds packet id {} but is neither being written, in flight, nor queued", k, p)); }
+            }
+            if let (Some(_), MqttPacket::Publish(publish)) = (&op.qos2_pubrel, &*op.packet) {
+                if !publish.duplicate { let inflight = op_packet_id(op).map(|p| s.pending_publish_operations.contains_key(&p) || s.pending_non_publish_operations.contains_key(&p)).unwrap_or(false);
+                    if !inflight { return Err(format!("H6 operation {} has its PUBREL, DUP=0, but is not in flight", k)); } }
+            }
+        }
+        let quiet = s.state == ProtocolStateType::Disconnected || s.state == ProtocolStateType::PendingConnack;
+        if quiet && (!s.pending_publish_operations.is_empty() || !s.pending_non_publish_operations.is_empty() || !s.operation_ack_timeouts.is_empty() || s.current_operation_ack_timeout_elapsed) {
+            return Err("H3 something in flight / a timeout armed without an established connection".into()); }
+        if s.state == ProtocolStateType::Disconnected && (!s.high_priority_operation_queue.is_empty() || !s.pending_write_completion_operations.is_empty() || s.current_operation.is_some()) {
+            return Err("H4 something queued for writing / half written / unflushed while disconnected".into()); }
+        if s.state == ProtocolStateType::PendingConnack {
+            let n = s.high_priority_operation_queue.len() + s.pending_write_completion_operations.len() + if s.current_operation.is_some() { 1 } else { 0 };
+            let all_connect = s.high_priority_operation_queue.iter().all(is_connect) && s.pending_write_completion_operations.iter().all(is_connect) && s.current_operation.iter().all(is_connect);
+            if n > 1 || !all_connect { return Err(format!("H5 during the handshake {} things are written/half written/unflushed or one of them is not the CONNECT", n)); }
         }
         Ok(())
     }
